@@ -2,8 +2,8 @@
    Statements about Cli.cli (cmd/cli.go composed with the whole pipeline model), for ALL flag
    vectors, ALL file contents (or a missing file), ALL schedules (`pick`) and fuels. *)
 From stdpp Require Import gmap.
-Require Import Grits.Base Grits.Expand Grits.TcTop Grits.Runtime Grits.Cli Grits.proofs.CliProofs
-               Grits.proofs.RtTheorems Grits.proofs.RtTcSyn Grits.proofs.RtTheoremsTc Grits.proofs.CliSafety.
+Require Import Grits.Base Grits.STypes Grits.Forms Grits.Expand Grits.TcTop Grits.Runtime Grits.Cli Grits.proofs.CliProofs
+               Grits.spec.Topo Grits.proofs.RtSafety Grits.proofs.RtTheorems Grits.proofs.RtTcSyn Grits.proofs.RtTheoremsTc Grits.proofs.CliSafety.
 
 Theorem C18_runs_only_if_ok : forall pick fuel f file,
   co_ran (cli pick fuel f file) = true ->
@@ -37,13 +37,22 @@ Proof. exact trace_only_from_runtime. Qed.
 
 (* "the run did not die", discharged by type safety (C01) for a closed program that was checked and is run in the
    asynchronous polarized mode (the default): exit status 0, no diagnostic, no Go panic trace, under every schedule.
-   Premises as in C01_safety_parsed_partial: rt_syn_ok (computable condition on names) and the forest invariant
+   Premise as in C01_safety_parsed_partial: the forest invariant
    topo_runs (a theorem for the core fragment, C03_topo_reachable_core; tested on every run otherwise). *)
 Theorem C18_checked_closed_async_exits_zero : forall pick fuel f s p p',
   parse_string s = POk p -> typecheck_on f = true -> typecheck p = Accept p' ->
-  run_mode f = Some Async -> in_fragment p' -> rt_syn_ok p = true -> topo_runs p' ->
+  run_mode f = Some Async -> in_fragment p' -> topo_runs p' ->
   co_exit (cli pick fuel f (Some s)) = 0 /\ co_trace (cli pick fuel f (Some s)) = false /\ co_diags (cli pick fuel f (Some s)) = 0.
 Proof. exact cli_checked_async_exits_zero. Qed.
+
+(* the same for whichever mode the flags select (--sync selects the non-polarized mode): C01's safety theorem for the
+   three modes; premise: the forest invariant on the configurations reachable in that mode *)
+Theorem C18_checked_closed_exits_zero : forall pick fuel f s p p' md,
+  parse_string s = POk p -> typecheck_on f = true -> typecheck p = Accept p' ->
+  run_mode f = Some md -> in_fragment p' ->
+  (forall c, RtSafety.reachable (p_types p') (p_funs p') md (init_config p') c -> Topo c) ->
+  co_exit (cli pick fuel f (Some s)) = 0 /\ co_trace (cli pick fuel f (Some s)) = false /\ co_diags (cli pick fuel f (Some s)) = 0.
+Proof. exact cli_checked_exits_zero. Qed.
 
 (* non-vacuity: a file that runs, one that is rejected, one with a syntax error *)
 Definition fl_default : flags :=
@@ -68,3 +77,4 @@ Print Assumptions C18_exit_zero_iff.
 Print Assumptions C18_no_output_on_failure.
 Print Assumptions C18_trace_only_from_runtime.
 Print Assumptions C18_checked_closed_async_exits_zero.
+Print Assumptions C18_checked_closed_exits_zero.
